@@ -75,7 +75,7 @@ func H_TB_marshalers(t *verifrt.T) {
 	} else {
 		b = append(b, "null"...)
 	}
-	b = append(append(append(b, `,"vt":"vt<`...), num...), `","pt":"pt`...)
+	b = append(append(append(b, `,"vt":"vt\u003c`...), num...), `","pt":"pt`...)
 	b = append(append(b, num...), '"')
 	if t.Choice("ppt", 2) == 1 {
 		h.PPT = &vmPT{n}
@@ -92,7 +92,7 @@ func H_TB_marshalers(t *verifrt.T) {
 		// map values are not addressable: pointer-receiver methods are not used, the struct is encoded by kind
 		h.MV, h.MJ, h.MK = map[string]vmPT{"k": {n}}, map[string]vmPJ{"k": {n}}, map[vmVT]int{{n}: 1}
 		b = append(append(append(b, `{"k":{"N":`...), num...), `}},"mj":{"k":{"N":`...)
-		b = append(append(append(b, num...), `}},"mk":{"vt<`...), num...)
+		b = append(append(append(b, num...), `}},"mk":{"vt\u003c`...), num...)
 		b = append(b, `":1}`...)
 	}
 	b = append(b, `,"sv":`...)
